@@ -56,6 +56,7 @@ def shards(tier, seed):
         out.append(("factor_ex_%d" % i, dict(kind="factor_ex", lo=-5 + i * ftop // fp, hi=-5 + (i + 1) * ftop // fp)))
     out.append(("factor_struct", dict(kind="factor_struct", count=150 if q else 2500)))
     out.append(("gcdlcm", dict(kind="gcdlcm", count=1500 if q else 40000)))
+    out.append(("code_constants", dict(kind="consts")))
     return out
 
 
@@ -243,6 +244,32 @@ def run(ctx, name, kind, **kw):
                 a = rng.choice(big)
                 n, key, cls = a * a, "square_beyond", "factorization.beyond_table"
             chk_factor(ctx, n, cls, key="%s|%d" % (key, n.bit_length()))
+    elif kind == "consts":
+        # dictionary of the integer literals found in numbertheory.py's own code: each constant, its neighbours and its
+        # prime factors (reference factorisation) are offered to is_prime / next_prime / factorization
+        from vf import gen
+        consts = sorted(c for c in gen.code_int_constants(NT) if 1 < abs(c) < 1 << 80)
+        cands = set()
+        for c in consts:
+            c = abs(c)
+            cands |= {c, c + 1, c - 1, c + 2, c - 2, 2 * c + 1, 2 * c - 1}
+            m, d = c, 2
+            while d * d <= m and d < 2000000:        # trial division with a bound; the cofactor is kept whatever it is
+                while m % d == 0:
+                    cands.add(d)
+                    m //= d
+                d += 1 if d == 2 else 2
+            if m > 1:
+                cands.add(m)
+        ctx.count("code_constants_found", len(consts))
+        for n in sorted(cands):
+            if n < 2 or n >= 1 << 64:
+                continue
+            want = nt.is_prime(n)
+            chk_isprime(ctx, n, want, "is_prime.code_constant", key=n if n > 1300 else None)
+            if n < 1 << 40:
+                chk_next(ctx, n - 1, nt.next_prime(n - 1), "next_prime.code_constant", key=None)
+                chk_factor(ctx, n, "factorization.code_constant", key=None)
     elif kind == "gcdlcm":
         small = nt.primes_below(60)
         for i in range(kw["count"]):
